@@ -93,7 +93,7 @@ drain ends, exit) followed by a start
   waiting, with exactly the rows and the change log of `c` (the log ends with the last change
   produced before the stop) and an unchanged table;
 * if no transaction was missed before and no match step is outstanding at the stop
-  (`missed = 0`, `held = []`: see `restored_stale_*_counterexample` for what happens otherwise),
+  (`missed = 0`, `held = []`: see `restored_stale_late_match_counterexample` for what happens otherwise),
   the restored rows equal the table, and the next transaction that changes a key yields exactly one
   new change whose id is the previous maximum + 1. -/
 theorem restart_continues_ids (ops : List Op) :
@@ -269,7 +269,7 @@ theorem no_stale_serving (ops : List Op) :
     simp [S.served, hreg] at hsrv
 
 /-- **Partial: "a restored subscription's rows equal its query on the database."**
-Full statement (FALSE for the code as it is, see the two counterexamples below):
+Full statement (FALSE for the code as it is, see the counterexample below):
 `∀ ops, (run init ops).up = false → (stepD (run init ops) .restart).served → rows = db`.
 Proved under the hypothesis that no committed transaction was missed by the subscription
 (`missed = 0`: every transaction that committed while the directory existed had its match step run
